@@ -80,6 +80,7 @@ fn check(c: &Case, obs: &mut Obs) -> CheckResult {
         Some((a, b)) => vec![(vcore::idx(a, n), vcore::idx(b, n))],
         None => (0..n).flat_map(|a| (0..n).map(move |b| (a, b))).collect(),
     };
+    let mut deferred: Option<Fail> = None;
     for (src, dst) in pairs {
         if src == dst { continue; }
         let (sia, dia) = (IsdAsn(t.ases[src].ia), IsdAsn(t.ases[dst].ia));
@@ -103,6 +104,7 @@ fn check(c: &Case, obs: &mut Obs) -> CheckResult {
         }
         let mut kinds = BTreeSet::new();
         for (pi, p) in paths.iter().enumerate() {
+            let r = (|| -> CheckResult {
             let hops = segconv::hops_of(p).ok_or_else(|| Fail::new("metadata-interface-list-malformed", format!("{sia}->{dia} path {pi}")))?;
             let dp_bytes = p.dp_path().as_slice().to_vec();
             let dp = rw::decode_std_path(&dp_bytes).map_err(|e| Fail::new("dataplane-path-unparseable", format!("{e:?}")))?.0;
@@ -134,12 +136,24 @@ fn check(c: &Case, obs: &mut Obs) -> CheckResult {
             let expect_meta: Option<Vec<(u64, u16, u16)>> = Some(hops.iter().rev().map(|(ia, i, e)| (*ia, *e, *i)).collect());
             ensure!(rhops == expect_meta, "reversed-metadata-differs", "reversed metadata {rhops:?}, expected {expect_meta:?}");
             obs.evals(2);
+            Ok(())
+            })();
+            // failures on peering paths (known finding) are reported after the rest of the
+            // topology has been checked, so that they do not hide anything else
+            match r {
+                Ok(()) => {}
+                Err(f) if f.sig.ends_with(":peering") => { deferred.get_or_insert(f); }
+                Err(f) => return Err(f),
+            }
         }
         if kinds.iter().any(|k| matches!(*k, "shortcut" | "peering" | "on-path" | "three-segments")) || paths.len() >= 2 {
             obs.nontrivial(&(&c.topo, src, dst, c.ts));
         }
     }
-    Ok(())
+    match deferred {
+        Some(f) => Err(f),
+        None => Ok(()),
+    }
 }
 
 fn run(ctx: &Ctx) {
